@@ -309,6 +309,10 @@ func c09(r *lp.Run) {
 	if kerr != nil {
 		r.Fail(lp.PropFail{Property: "C09", What: "the generator refuses the scheme-kind matrix spec", Input: secKindsDoc, Observed: kerr.Error(), Expected: "generated package"})
 	}
+	kinds2Pkg, kerr2 := mod.Add("seckinds2", []byte(secKinds2Doc), gen.Options{})
+	if kerr2 != nil {
+		r.Fail(lp.PropFail{Property: "C09", What: "the generator refuses the second scheme-kind spec", Input: secKinds2Doc, Observed: kerr2.Error(), Expected: "generated package"})
+	}
 	bin, err := mod.Build()
 	if err != nil {
 		r.Fail(lp.PropFail{Property: "C02", What: "generated security packages do not compile", Input: "security specs", Observed: err.Error(), Expected: "compiles"})
@@ -327,6 +331,9 @@ func c09(r *lp.Run) {
 	}
 	if kindsPkg != nil {
 		c09Kinds(r, rng, drv, kindsPkg)
+	}
+	if kinds2Pkg != nil {
+		c09Extra(r, drv, kinds2Pkg)
 	}
 }
 
